@@ -66,8 +66,17 @@ struct SimpleStringBuffer
     void setWriteLimit(size_t write_limit);
     void resetWriteLimit();
     bool reachedItsCapacity();
+#ifdef CPPUTEST_VERIF_HOOKS
+    enum { VERIF_CANARY_LEN = 32 };
+    bool verifCanaryIntact() const;
+    size_t verifPositionsFilled() const { return positions_filled_; }
+    size_t verifWriteLimit() const { return write_limit_; }
+#endif
 private:
     char buffer_[SIMPLE_STRING_BUFFER_LEN];
+#ifdef CPPUTEST_VERIF_HOOKS
+    unsigned char verifCanary_[VERIF_CANARY_LEN];
+#endif
     size_t positions_filled_;
     size_t write_limit_;
 };
@@ -90,6 +99,9 @@ public:
     void reportMemoryCorruptionFailure(MemoryLeakDetectorNode* node, const char* freeFile, size_t freeLineNumber, TestMemoryAllocator* freeAllocator, MemoryLeakFailure* reporter);
     void reportAllocationDeallocationMismatchFailure(MemoryLeakDetectorNode* node, const char* freeFile, size_t freeLineNumber, TestMemoryAllocator* freeAllocator, MemoryLeakFailure* reporter);
     char* toString();
+#ifdef CPPUTEST_VERIF_HOOKS
+    const SimpleStringBuffer& verifBuffer() const { return outputBuffer_; }
+#endif
 
 private:
     void addAllocationLocation(const char* allocationFile, size_t allocationLineNumber, size_t allocationSize, TestMemoryAllocator* allocator);
@@ -237,6 +249,9 @@ public:
     unsigned getCurrentAllocationNumber();
 
     SimpleMutex* getMutex(void);
+#ifdef CPPUTEST_VERIF_HOOKS
+    const SimpleStringBuffer& verifOutputBuffer() const { return outputBuffer_.verifBuffer(); }
+#endif
 private:
     MemoryLeakFailure* reporter_;
     MemLeakPeriod current_period_;
